@@ -341,6 +341,34 @@ using TrackedMoveOnly = TrackedT<Kind::move_only>;
 using TrackedCopyOnly = TrackedT<Kind::copy_only>;
 using TrackedOA       = TrackedT<Kind::copy_move, 100>; // alignas(32)
 
+// Element type whose operator< is coarser than its operator==: 2k and 2k+1 are equivalent under < but not equal (the
+// shape of a case-insensitive key or of a record ordered by one field). Lexicographic comparisons must decide ties with
+// operator< alone, equality with operator== alone.
+struct Coarse {
+    int v = 0;
+
+    Coarse() = default;
+
+    Coarse(int x) // NOLINT
+        : v(x)
+    {
+    }
+
+    explicit operator long long() const { return v; }
+
+    friend auto operator==(Coarse const& a, Coarse const& b) -> bool { return a.v == b.v; }
+
+    friend auto operator!=(Coarse const& a, Coarse const& b) -> bool { return a.v != b.v; }
+
+    friend auto operator<(Coarse const& a, Coarse const& b) -> bool { return a.v / 2 < b.v / 2; }
+
+    friend auto operator>(Coarse const& a, Coarse const& b) -> bool { return b < a; }
+
+    friend auto operator<=(Coarse const& a, Coarse const& b) -> bool { return !(b < a); }
+
+    friend auto operator>=(Coarse const& a, Coarse const& b) -> bool { return !(a < b); }
+};
+
 template <typename T>
 inline constexpr bool is_tracked_v = false;
 template <Kind K, int Tag>
